@@ -13,6 +13,21 @@ if os.path.exists(p):
         if len(f) >= 5:
             summ[f[0]] = f
 notes = json.load(open(os.path.join(ROOT, "seeded", "STRENGTHENED.json")))
+print("""# Independently seeded property-breaking changes
+
+Each directory holds `patch.diff` (applies to the /repo HEAD it was written against; `meta.json` names it), `demo.py` (exits 0
+on the unchanged tree, non-zero with the patch), `notes.md` (the seeder's own account) and `meta.json` (what the coordinator
+confirmed and every run of the checks against the change, with the /verif commit used).  Seeders saw the text of ONE property
+and a scratch worktree of /repo; nothing from /verif.  `S-` = wave 1, `S2-` = wave 2, `S3-` = wave 3 (steered towards less
+central solvers, two-parameter combinations, special points, object/call interactions, hidden-unit literals), `S4-` = wave 4
+(twelve properties; rarely taken branches, numerical-method slips, array handling, sign conventions, wrappers, bookkeeping).
+
+Columns: *final result* = the check that reports the change with the final machinery (`tools/seed_sweep.py`; `recorded@<commit>`
+= taken from the run recorded in meta.json with that /verif commit because the final sweep did not reach the seed), in square
+brackets the exit code of the seed's own property's quick check when that is not the reporting check; *first run* = outcome
+of the own-property quick check the first time it met the change; *note* = what was strengthened after a miss.
+`CATCHERS.json` lists, per seed, the sibling checks tried when the own-property check is silent; `STRENGTHENED.json` holds the notes.
+""")
 print("| seed | needs to manifest | final result | first run | note |")
 print("|---|---|---|---|---|")
 for d in sorted(glob.glob(os.path.join(ROOT, "seeded", "S*-C*"))):
@@ -25,6 +40,8 @@ for d in sorted(glob.glob(os.path.join(ROOT, "seeded", "S*-C*"))):
     final = ("%s %s exit %s (%s)" % (s[1], s[2], s[3], s[4])) if s else "-"
     if s and len(s) >= 6 and s[5] != "1":
         final += " [%s quick: exit %s]" % (prop, s[5])
+    if s and len(s) >= 7 and s[6] != "sweep":
+        final += " (%s)" % s[6]
     others = sorted({c for r in runs for c, v in r["results"].items() if c != prop and v["exit"] == 1})
     if others:
         final += "; also " + ", ".join(others)
